@@ -1,3 +1,107 @@
-From BiomV Require Import Model.Metadata.
-Theorem placeholder_c18 : True. Proof. exact Logic.I. Qed.
-Print Assumptions placeholder_c18.
+(* C18: metadata updates affect exactly the named ids and keys; a mapping file parses to the
+   relation its rows describe.
+   Model: Model/Metadata.v (add_metadata, del_metadata, parse_mapping, cli_add, the row grammar
+   mfile with its printer render and its meaning relation); proofs: Proofs/MetadataProofs.v.
+   md_lookup t a id k is the value of key k for id on axis a (None when id or key is absent);
+   mwf / mapping_wf say "a table" (distinct ids, metadata None or one dict per id) and "a Python
+   dict of dicts" (distinct ids, distinct keys). conv is the int() / float() oracle. *)
+From Coq Require Import List ZArith Bool.
+From BiomV Require Import Base.Tree Base.Matrix Model.Table Model.Tsv Model.Metadata Proofs.TsvProofs Proofs.MetadataProofs.
+Import ListNotations.
+Open Scope Z_scope.
+
+(* Adding a mapping: ids, their order and the matrix are untouched, so is the other axis; for
+   every id of the table and every key, the new value is the mapping's value when the mapping
+   names that id and that key, and the old value otherwise (ids of the mapping that are not in
+   the table appear nowhere); the axis has no metadata afterwards iff it had none and the
+   mapping names none of its ids. *)
+Theorem add_md_local :
+  forall t m a, mwf t -> mapping_wf m ->
+  let t' := add_metadata t m a in
+  m_oids t' = m_oids t /\ m_sids t' = m_sids t /\ m_mat t' = m_mat t
+  /\ m_mds (other a) t' = m_mds (other a) t
+  /\ (forall id k, In id (m_ids a t) ->
+        md_lookup t' a id k
+        = match mlookup id m with
+          | Some e => match aget e k with Some v => Some v | None => md_lookup t a id k end
+          | None => md_lookup t a id k
+          end)
+  /\ (m_mds a t' = None <-> m_mds a t = None /\ forall id, In id (m_ids a t) -> mlookup id m = None).
+Proof. exact add_md_local_proof. Qed.
+Print Assumptions add_md_local.
+
+Theorem add_then_lookup :
+  forall t m a id e k v, mwf t -> mapping_wf m ->
+  In id (m_ids a t) -> mlookup id m = Some e -> aget e k = Some v ->
+  md_lookup (add_metadata t m a) a id k = Some v.
+Proof. exact add_then_lookup_proof. Qed.
+Print Assumptions add_then_lookup.
+
+Theorem add_md_keeps_table : forall t m a, mwf t -> mwf (add_metadata t m a).
+Proof. exact add_metadata_wf. Qed.
+Print Assumptions add_md_keeps_table.
+
+(* Deleting keys (None = all keys): ids, order, matrix untouched; an axis that is not chosen is
+   untouched; on a chosen axis exactly the named keys disappear, for every id. *)
+Theorem del_md_local :
+  forall t keys s,
+  let t' := del_metadata t keys s in
+  m_oids t' = m_oids t /\ m_sids t' = m_sids t /\ m_mat t' = m_mat t
+  /\ (forall a, selected s a = false -> m_mds a t' = m_mds a t)
+  /\ (forall a id k, selected s a = true ->
+        md_lookup t' a id k
+        = match keys with None => None | Some ks => if tmem k ks then None else md_lookup t a id k end)
+  /\ (forall a, selected s a = true -> keys = None -> m_mds a t' = None).
+Proof. exact del_md_local_proof. Qed.
+Print Assumptions del_md_local.
+
+(* metadata collapses to None exactly when every entry is empty after the deletion *)
+Theorem del_md_collapse :
+  forall ks l, del_axis (Some ks) (Some l) = None <-> l <> [] /\ Forall (fun e => adel_all e ks = []) l.
+Proof. exact del_axis_none. Qed.
+Print Assumptions del_md_collapse.
+
+Theorem del_md_idempotent :
+  forall t keys s, del_metadata (del_metadata t keys s) keys s = del_metadata t keys s.
+Proof. exact del_md_idempotent_proof. Qed.
+Print Assumptions del_md_idempotent.
+
+(* A file printed from the row grammar (white-space lines, '#' header line, comment lines,
+   blank lines, rows with fewer or more cells than columns, quoted / padded cells) parses, for
+   each of the four strip_f variants, every header override and every column-conversion option
+   set, to the relation its rows describe. *)
+Theorem mapping_parse :
+  forall (conv : Z -> text -> option Tree) sq ss override o g,
+    mfile_wf sq ss override g ->
+    parse_mapping conv sq ss override o (render g) = ROk (relation conv sq ss override o g).
+Proof. exact mapping_parse_proof. Qed.
+Print Assumptions mapping_parse.
+
+(* under the default variant a quoted, space-padded cell stands for its text *)
+Theorem quoted_cell_value :
+  forall pl pr t,
+    ws_only pl -> ws_only pr -> ~ In QUOTE t -> (t = [] \/ edges_ok t) ->
+    strip_f true false (pl ++ [QUOTE] ++ t ++ [QUOTE] ++ pr) = t.
+Proof. exact quoted_cell_value_proof. Qed.
+Print Assumptions quoted_cell_value.
+
+(* the add-metadata command with a sample mapping file of the grammar adds that relation *)
+Theorem cli_add_sample_file :
+  forall conv t o hs g,
+    mfile_wf true false hs g ->
+    cli_add conv t (Some (render g)) None o hs []
+    = ROk (add_metadata t (relation conv true false hs o g) Samp).
+Proof. exact cli_add_sample_proof. Qed.
+Print Assumptions cli_add_sample_file.
+
+(* ---- non-vacuity ---- *)
+Example add_md_local_hyps : mwf MdExamples.t32 /\ mapping_wf MdExamples.m1.
+Proof. split; [exact (mwfb_ok _ MdExamples.t32_wf)|exact (mapping_wfb_ok _ MdExamples.m1_wf)]. Qed.
+Example add_md_local_changes_something :
+  md_lookup (add_metadata MdExamples.t32 MdExamples.m1 Obs) Obs MdExamples.o1 MdExamples.kA = Some (MdExamples.v 10)
+  /\ md_lookup MdExamples.t32 Obs MdExamples.o1 MdExamples.kA = Some (MdExamples.v 1)
+  /\ md_lookup (add_metadata MdExamples.t32 MdExamples.m1 Obs) Obs MdExamples.o1 MdExamples.kB = Some (MdExamples.v 2).
+Proof. vm_compute. repeat split. Qed.
+Example mapping_parse_hyps :
+  mfile_wf true false [] MdExamples.gex /\ mfile_wf true false [MdExamples.n_id; MdExamples.n_ph] MdExamples.gex.
+Proof. split; [exact (mfile_wfb_ok _ _ _ _ MdExamples.gex_wf)|exact (mfile_wfb_ok _ _ _ _ MdExamples.gex_override_wf)]. Qed.
